@@ -132,7 +132,10 @@ def runPair (acts : List PairAction) (p : CSampler × CSampler) : CSampler × CS
 def maxCutoff (cs : List Nat) : Nat := cs.foldl max 0
 
 /-- `tempering_step` / `parallel_tempering_step` preamble: every replica gets
-`set_op_cutoff(max over replicas)`. -/
+`set_op_cutoff(max over replicas of get_op_cutoff())`.  For both replica types (`impl SwapManagers
+for QmcIsingGraph` and `for Qmc`, tempering_traits.rs) `get_op_cutoff` is the **sampler's** cutoff
+field (`get_cutoff()`), not the container length — the container lags one sweep behind a cutoff
+that has just grown — and `set_op_cutoff` is the sampler's `set_cutoff`. -/
 def equalise (rs : List CSampler) : List CSampler :=
   let m := maxCutoff (rs.map (·.cutoff))
   rs.map (CSampler.setCutoff m)
